@@ -4,6 +4,7 @@ from . import Ctx
 
 ALL_TAGS = {"", "avfs_setostype"}
 CHECKS = {}
+REPLAYERS = {}   # optional per-property replay of files that are not (stream, case) shaped
 
 
 def replay(ctx, path):
@@ -12,6 +13,8 @@ def replay(ctx, path):
         print("replay file names a broken obligation/correspondence (%s); re-running the whole check" % obj["broken"])
         CHECKS[ctx.prop](ctx)
         return ctx.finish()
+    if "stream" not in obj and ctx.prop in REPLAYERS:
+        return REPLAYERS[ctx.prop](ctx, obj)
     st = obj["stream"]
     mm = ctx.stream(st["name"] + "-replay", st["harness"], st["driver"], tags=st.get("tags", ""), replay_lines=[obj["case"]])
     if mm is None:
